@@ -113,7 +113,16 @@ INSERTS = [
     ('append_str', 'zz_extra'),                 # into lists
     ('append_dict2', {'a': 1, 'b': 2}),         # into lists
     ('dup_first', None),                        # into lists: repeat item 0
+    # legal DSL keywords in places where they are unusual (into dicts)
+    ('kw_type_reverse', ('type', 'reverse')),
+    ('kw_type_direct', ('type', 'direct')),
+    ('kw_join_all', ('join', 'all')),
+    ('kw_requires', ('requires', [])),
+    ('kw_description', ('description', 'zz d')),
+    ('kw_keep_result', ('keep-result', False)),
 ]
+KW_INSERTS = ['kw_type_reverse', 'kw_type_direct', 'kw_join_all',
+              'kw_requires', 'kw_description', 'kw_keep_result']
 INSERT_BY_NAME = dict(INSERTS)
 
 
@@ -165,6 +174,9 @@ def single_mutations(tree, values=None, keys=None, inserts=True):
         if inserts:
             if isinstance(node, dict):
                 out.append(['ins', p, 'unknown_key'])
+                for kw in KW_INSERTS:
+                    if INSERT_BY_NAME[kw][0] not in node:
+                        out.append(['ins', p, kw])
             elif isinstance(node, list):
                 out.append(['ins', p, 'append_str'])
                 out.append(['ins', p, 'append_dict2'])
@@ -203,13 +215,13 @@ def apply_mutation(tree, mut):
             parent.update(items)
         elif op == 'ins':
             node = _get(t, path)
-            if arg == 'unknown_key':
+            if arg == 'unknown_key' or arg.startswith('kw_'):
                 if not isinstance(node, dict):
                     return None
                 k, v = INSERT_BY_NAME[arg]
                 if k in node:
                     return None
-                node[k] = v
+                node[k] = copy.deepcopy(v)
             else:
                 if not isinstance(node, list):
                     return None
